@@ -225,8 +225,8 @@ def drive(FullGrid, b, o, t, f, cart, order_seed):
         rng.shuffle(calls)
         if rng.random() < 0.4:
             calls.append(rng.choice(calls))
-        for c in calls:
-            c()
+        from vlib.rec import call_and_hold
+        call_and_hold(calls, "C02.returned_object_stable")
         if fg.get_b_N() >= 4 and fg.get_o_N() >= 4:
             REC.nontrivial_case((b, o, t, f, cart))
     except Exception as e:
